@@ -795,3 +795,18 @@ package index
 //@   fresh f
 //@   ensures err == nil ==> f != nil && f.$open && f.$name == name && 0 <= f.$size && f.$size < (1 << 62)
 //@   ensures err != nil ==> f == nil
+
+// readDiskBucket (C07, reader side of flushBucket's layout): the size prefix is read 4 bytes
+// before the bucket position, then exactly that many bytes at the position; the list handed back
+// is what follows the 4-byte bucket tag; an empty bucket (position 0) reads as no list.
+//@ func (idx *Index) readDiskBucket(indexOffset types.Position, fileNum uint32) (rl RecordList, err error)  property C07
+//@   modifies fp(FC)
+// input invariant: every record of an index file carries at least the 4-byte bucket tag and is smaller than 2^30 bytes
+//@   assume at after call (encoding/binary.littleEndian).Uint32#0: @format-index-record-size $r0 >= 4 && $r0 < 1073741824
+//@   assert at before call filecache.FileCache.Open#0: @file-of-position $a1 == fname(idx.basePath, fileNum)
+//@   assert at before call (*os.File).ReadAt#0: @size-prefix-before-position len($a1) == 4 && (indexOffset < 9223372036854775808 ==> $a2 == indexOffset - 4)
+//@   assert at before call (*os.File).ReadAt#1: @list-at-position len($a1) == le32(bytes(sizeBuf), 0) && (indexOffset < 9223372036854775808 ==> $a2 == indexOffset)
+//@   ensures @empty-bucket indexOffset == 0 ==> rl == nil && err == nil
+//@   ghost var gsize int = 0
+//@   ghost at after call (encoding/binary.littleEndian).Uint32#0: gsize = $r0
+//@   internal ensures @strips-tag err == nil && indexOffset != 0 ==> rl != nil && len(rl) == gsize - 4
